@@ -182,6 +182,12 @@ Proof.
 Qed.
 
 (* ---------- SetHeartbeatIntervalAndOffset ---------- *)
+Lemma dis_sh c t : 0 <= c -> tbc c t -> (sh64 c t =? ss_disabled) = (t =? ss_disabled).
+Proof.
+  intros Hc Ht. pose proof (en_sh c t Hc Ht) as E. unfold sched_is_enabled in E. rewrite dis64 in E. rewrite ssdis64.
+  destruct (sh64 c t =? SENT64), (t =? SENT64); cbn in E; congruence.
+Qed.
+
 Lemma set_heartbeat_all_sh c k : forall r i iv off, 0 <= c -> time_ok c r -> 0 <= i -> i + Z.of_nat k <= dev_count (rn r) -> 0 <= off < 2^32 ->
   set_heartbeat_all k (shift_rnode c r) i iv off = shift_rnode c (set_heartbeat_all k r i iv off) /\ time_ok c (set_heartbeat_all k r i iv off).
 Proof.
@@ -191,6 +197,7 @@ Proof.
   pose proof (tok_get_devx c r i H V) as (X1 & X2 & X3 & X4 & X5 & X6).
   rewrite get_devx_sh by (apply (tok_vx c); assumption). set (x := get_devx r i) in *.
   cbn [shift_devx x_hb x_hb_seq x_pend_claim x_pend_prod x_pend_conf x_rx shift_ss ss_period ss_offset ss_next].
+  rewrite dis_sh by assumption.
   set (interval1 := if iv =? 4294967295 then ss_period (x_hb x) else if iv =? 4294967294 then c_DefaultHeartbeatInterval else iv).
   set (offset1 := if off =? 4294967295 then ss_offset (x_hb x) else off).
   assert (Ho1: 0 <= offset1 < 2^32) by (unfold offset1; destruct (off =? 4294967295); assumption).
@@ -206,7 +213,8 @@ Proof.
     apply IH; try assumption; [lia|cbn [with_devx with_devinfo_changed rn]; lia].
   - set (interval2 := Z.max 1000 (Z.min interval1 c_MaxHeartbeatInterval)).
     assert (Hi2: 0 <= interval2 < 2^32) by (unfold interval2, c_MaxHeartbeatInterval; change (2^32) with 4294967296; lia).
-    destruct (negb (ss_period (x_hb x) =? interval2) || negb (ss_offset (x_hb x) =? offset1)).
+    set (changed := negb (ss_period (x_hb x) =? interval2) || negb (ss_offset (x_hb x) =? offset1)).
+    destruct (changed || (ss_next (x_hb x) =? ss_disabled)).
     + pose proof (tok_w64 c r H) as W.
       rewrite (millis64_w64 (shift_rnode c r)) by (rewrite shr_w64; exact W). rewrite (millis64_w64 r W).
       rewrite shr_now, shr_sync. destruct (tok_now _ _ H) as [N1 N2]. destruct (to_sync _ _ H) as [Y1 Y2].
@@ -218,13 +226,54 @@ Proof.
       destruct B as (B1 & B2 & B3 & B4 & B5 & B6).
       destruct (ss_shift (now r) (r_sync r) h0 c Hc B1 B2 B3 B4 B5 B6) as [U1 _]. rewrite U1.
       destruct (ss_update_tbc c (now r) (r_sync r) h0 Hc N1 N2 Y1 Y2 Ho1 Hi2) as (T1 & T2 & T3).
-      rewrite devx_rec_sh, with_devx_sh, with_dic_sh.
+      rewrite devx_rec_sh, with_devx_sh.
       match goal with |- context [with_devx r i ?y] => set (xa := y) end.
-      assert (H2: time_ok c (with_devinfo_changed (with_devx r i xa))).
-      { apply tok_dic, tok_with_devx; [exact H|]. unfold devx_ok, xa. cbn [x_pend_claim x_pend_prod x_pend_conf x_hb].
+      assert (H2: time_ok c (with_devx r i xa)).
+      { apply tok_with_devx; [exact H|]. unfold devx_ok, xa. cbn [x_pend_claim x_pend_prod x_pend_conf x_hb].
         rewrite T2. change (ss_offset h0) with offset1. repeat split; first [assumption|apply Ho1|apply T3]. }
-      apply IH; try assumption; [lia|cbn [with_devx with_devinfo_changed rn]; lia].
+      destruct changed.
+      * rewrite with_dic_sh. apply IH; try assumption; [apply tok_dic; exact H2|lia|cbn [with_devx with_devinfo_changed rn]; lia].
+      * apply IH; try assumption; [lia|cbn [with_devx rn]; lia].
     + apply IH; try assumption; lia.
+Qed.
+
+Lemma resync_heartbeats_sh c k : forall r i, 0 <= c -> time_ok c r -> 0 <= i -> i + Z.of_nat k <= dev_count (rn r) ->
+  resync_heartbeats k (shift_rnode c r) i = shift_rnode c (resync_heartbeats k r i) /\ time_ok c (resync_heartbeats k r i).
+Proof.
+  induction k as [|k IH]; intros r i Hc H Hi Hk; cbn [resync_heartbeats]; [split; [reflexivity|exact H]|].
+  rewrite Nat2Z.inj_succ in Hk. cbv zeta.
+  assert (V: vi (rn r) i) by (apply vi_range; lia).
+  pose proof (tok_get_devx c r i H V) as (X1 & X2 & X3 & X4 & X5 & X6).
+  rewrite get_devx_sh by (apply (tok_vx c); assumption). set (x := get_devx r i) in *.
+  cbn [shift_devx x_hb x_hb_seq x_pend_claim x_pend_prod x_pend_conf x_rx]. cbn [shift_ss ss_next ss_period].
+  rewrite dis_sh by assumption.
+  destruct (ss_next (x_hb x) =? ss_disabled); [apply IH; try assumption; lia|].
+  destruct (tok_now _ _ H) as [N1 N2]. destruct (to_sync _ _ H) as [Y1 Y2].
+  destruct (Z.eqb_spec (ss_period (x_hb x)) 0) as [P0|P0].
+  - (* UpdateNextTime with period 0 disables without reading the clock *)
+    assert (E: ss_update_next 0 (r_sync (shift_rnode c r)) (shift_ss c (x_hb x)) = shift_ss c (ss_update_next 0 (r_sync r) (x_hb x))).
+    { unfold ss_update_next, shift_ss. cbn [ss_period ss_offset ss_next]. rewrite P0. cbn [Z.eqb ss_next ss_offset ss_period].
+      rewrite ssdis64, sh64_dis. reflexivity. }
+    fold (shift_ss c (x_hb x)). rewrite E, devx_rec_sh, with_devx_sh.
+    match goal with |- context [with_devx r i ?y] => set (xa := y) end.
+    assert (H2: time_ok c (with_devx r i xa)).
+    { apply tok_with_devx; [exact H|]. unfold devx_ok, xa, ss_update_next. cbn [x_pend_claim x_pend_prod x_pend_conf x_hb]. rewrite P0.
+      cbn [Z.eqb ss_next ss_offset ss_period]. rewrite ssdis64. repeat split; try assumption; try apply tbc_dis; try apply X5; change (2^32) with 4294967296; lia. }
+    apply IH; try assumption; [lia|cbn [with_devx rn]; lia].
+  - pose proof (tok_w64 c r H) as W.
+    rewrite (millis64_w64 (shift_rnode c r)) by (rewrite shr_w64; exact W). rewrite (millis64_w64 r W).
+    rewrite shr_now, shr_sync. fold (shift_ss c (x_hb x)).
+    assert (B: 0 <= now r /\ now r + c < SB /\ 0 <= r_sync r /\ r_sync r + c < SB /\ 0 <= ss_offset (x_hb x) < SB /\ 0 <= ss_period (x_hb x) < SB).
+    { rewrite NB_val, SB_val in *. change (2^32) with 4294967296 in *. lia. }
+    destruct B as (B1 & B2 & B3 & B4 & B5 & B6).
+    destruct (ss_shift (now r) (r_sync r) (x_hb x) c Hc B1 B2 B3 B4 B5 B6) as [U1 _]. rewrite U1.
+    destruct (ss_update_tbc c (now r) (r_sync r) (x_hb x) Hc N1 N2 Y1 Y2 X5 X6) as (T1 & T2 & T3).
+    rewrite devx_rec_sh, with_devx_sh.
+    match goal with |- context [with_devx r i ?y] => set (xa := y) end.
+    assert (H2: time_ok c (with_devx r i xa)).
+    { apply tok_with_devx; [exact H|]. unfold devx_ok, xa. cbn [x_pend_claim x_pend_prod x_pend_conf x_hb].
+      rewrite T2. repeat split; first [assumption|apply X5|apply T3]. }
+    apply IH; try assumption; [lia|cbn [with_devx rn]; lia].
 Qed.
 
 (* ---------- Open() ---------- *)
@@ -294,7 +343,10 @@ Proof.
       rewrite shr_rn, shn_devs, map_length.
       destruct (set_heartbeat_all_sh c (length (n_devs (rn r3))) r3 0 c_DefaultHeartbeatInterval 10000 Hc H3 ltac:(lia) ltac:(unfold dev_count; lia)
                   ltac:(change (2^32) with 4294967296; lia)) as [E4 K4].
-      rewrite E4. cbn [fst snd]. split; [reflexivity|exact K4].
+      rewrite E4. set (r4 := set_heartbeat_all (length (n_devs (rn r3))) r3 0 c_DefaultHeartbeatInterval 10000) in *.
+      rewrite shr_rn, shn_devs, map_length.
+      destruct (resync_heartbeats_sh c (length (n_devs (rn r4))) r4 0 Hc K4 ltac:(lia) ltac:(unfold dev_count; lia)) as [E5 K5].
+      rewrite E5. cbn [fst snd]. split; [reflexivity|exact K5].
     + rewrite with_rxq_sh. split; [reflexivity|apply tok_with_rxq; [exact K0|constructor]].
 Qed.
 
